@@ -439,6 +439,13 @@ func execC17(body json.RawMessage) *kernel.Result {
 								inner += `, \"Zed\":1`
 							}
 							js = fmt.Sprintf(`{\"Atype\":\"%s\"%s}`, sn(k), inner)
+							if step%3 == 1 {
+								// the same nested object without its own type tag
+								js = "{" + strings.TrimPrefix(inner, ", ") + "}"
+								if js == "{}" {
+									js = `{\"Zed\":1}`
+								}
+							}
 						}
 					}
 					if js == "" {
